@@ -1000,17 +1000,32 @@ fn main() {
     let Mode::Supervisor(mut c) = start("C13", "exploration", build) else { return };
     let k = c.tier.pick(2, 3);
     c.rule = format!(
-        "m2: every model within <= {k} site deviations of the all-empty and of the all-populated baseline ({} sites, 3-5 population levels each: empty/one/three, names none/short/255 chars, textures unnamed/named, float pool ±0,1,-1.5,MAX,MIN_POSITIVE,±inf,subnormal) x 8 header numbers (5 versions + 257, 263, 271) x {} rotation(s) of the float pool over the fields; m2conv: every model within <= {} deviations x all 25 (from,to) pairs x 2 entry points (thorough: x 2 float rotations); seed: byte-level MD20 files carrying 1 or 3 key frames (or none) in 1 or 3 records for every subset of <= {} of the 11 animated sections (+ all eleven) x variant {{plain, shared timestamp arrays, key-less tracks with non-default header}} x 5 versions, each also converted to all 5 versions; skin: full product of 5 sections x {{empty,one,many}} x 6 header layouts x conversions; anim: full product format x sections x bones x track mask x keys. A case is non-trivial when at least one section is populated; distinct by its axis tuple.",
+        "m2: every model within <= {k} site deviations of the all-empty and of the all-populated baseline ({} sites, 3-5 population levels each: empty/one/three, names none/short/255 chars, textures unnamed/named, float pool ±0,1,-1.5,MAX,MIN_POSITIVE,±inf,subnormal) x 8 header numbers (5 versions + 257, 263, 271) x {} rotation(s) of the float pool over the fields; m2conv: every model within <= {} deviations x all 25 (from,to) pairs x 2 entry points (thorough: x 2 float rotations, and the converted object must be a fixed point of write→parse→write); seed: byte-level MD20 files carrying {} key frames in {} records for every subset of <= {} of the 11 animated sections (+ all eleven) x variant {{plain, shared timestamp arrays, key-less tracks with non-default header}} x {} header numbers, each also converted to all 5 versions; share: dense byte-level seeds (every animated value keyed) in which animated values point at the SAME array: 10 sharing patterns (two/all values of one record, same value of the next / third / all records, other value of the next record, every value of every record, two separate groups, second record only) x shared kind {{ranges, timestamps, values, ranges+timestamps, all three}} x 10 animated sections singly + all ten at once{} x {} header numbers x keys {} x records {} x extent {}; skin: {}; anim: full product format x sections x bones x track mask x keys{}.{} A case is non-trivial when at least one section is populated (share: at least one array really points at an earlier one); distinct by its axis tuple.",
         gen::SITES.len(),
         c.tier.pick(1, 3),
         c.tier.pick(1, 2),
-        c.tier.pick(2, 3)
+        c.tier.pick("1 or 3 (or no)", "0, 1, 2, 3 or 8"),
+        c.tier.pick("1 or 3", "1, 2, 3 or 5"),
+        c.tier.pick(2, 3),
+        c.tier.pick(5, 8),
+        c.tier.pick("", " + each singly next to the nine others populated without sharing"),
+        c.tier.pick(5, 8),
+        c.tier.pick("{1,3}", "{1,2,3,8}"),
+        c.tier.pick("{3}", "{2,3,5}"),
+        c.tier.pick("{same count}", "{same count, member is a prefix of the source, member is one element longer than the source}"),
+        c.tier.pick("full product of 5 sections x {empty,one,many} x 6 header layouts x conversions", "full product of 5 sections x {empty,one,many,300} plus every tuple over {empty,many} with one or two sections at 65537 elements, x 6 header layouts x conversions"),
+        c.tier.pick("", " (counts 0,1,2,3,17; keys 0,1,2,3,300)"),
+        c.tier.pick(
+            "",
+            " Thorough only: m2many: one or two of 28 sites at 17 / 300 elements (4335-character name, 300 textures with embedded names) on both baselines, 16 small-record sites also at 65537 elements, x 8 header numbers; m2chain: every model within <= 1 deviation converted from -> via -> to over all 125 triples x 2 entry points x source {built, reparsed}: content representable in all three versions must survive and the result must be a write→parse→write fixed point; seedchain: sparse / dense / shared key-frame seeds (10 sections singly + all) converted over all 125 triples; edit: load-edit-save: a parsed key-frame seed (sparse, dense, dense+shared; all sections + embedded skin profiles) whose static sections are replaced through the object API by every <= 2-deviation static population x 8 header numbers, written, decoded independently (static fields against the object, key frames against the seed), parsed, written again; odd: emitter records with plain sub-arrays (ribbon texture/material index lists, particle geometry model name / tile coordinates) and animated values with ranges but no keys."
+        ),
     );
     c.assume("content equality is judged on the Debug rendering of the section vectors with every `offset:` value (recomputed by the writer) masked; NaN is not in the float pool (the parser documents that it replaces NaN pivots)");
     c.assume("object-API models follow the convention of parsed objects: texture file name count includes the NUL, a non-zero placeholder offset marks a named texture, vertex bone indices stay below the bone count, animation blocks of API-built records are empty (key frames enter only through parsed seeds)");
     c.assume("fields a version cannot store (bone name CRC < 260, camera id/flags < 264, ribbon slice/variation < 272, classic vs BC+ animation timing) are excluded from the comparison for that version / conversion pair");
     c.assume("seed files and the container walker follow the record layouts the property names (32/52-byte sequences, 108/112/88-byte bones, 28/20-byte animated values); /repo/docs describes a later layout for some records and is used for header order and M2Array semantics only");
-    for s in ["m2", "m2conv", "seed", "share", "skin", "anim"] {
+    let spaces: &[&str] = c.tier.pick(&["m2", "m2conv", "seed", "share", "skin", "anim"][..], &["m2", "m2many", "m2conv", "m2chain", "seed", "share", "seedchain", "edit", "odd", "skin", "anim"][..]);
+    for s in spaces {
         c.run_space(s, "");
     }
     let mut sites = Map::new();
@@ -1021,7 +1036,20 @@ fn main() {
         "axes".into(),
         json!({"versions": 5, "m2_sites": gen::SITES.len(), "m2_levels_per_site": sites, "m2_max_deviations": k, "conversion_pairs": 25, "conversion_entry_points": 2,
                "seed_tracked_sections": emit::TRACKED.len(), "seed_records": [1, 3], "seed_keys": [0, 1, 3], "seed_variants": emit::VARIANTS, "m2_header_numbers": 8,
-               "skin_layouts": skinfile::LAYOUTS.len(), "skin_sections": 5, "skin_levels": 3, "anim_formats": 2}),
+               "skin_layouts": skinfile::LAYOUTS.len(), "skin_sections": 5, "skin_levels": 3, "anim_formats": 2,
+               "share_patterns": share::PATTERNS, "share_kinds": share::KINDS.iter().map(|k| k.0).collect::<Vec<_>>(), "share_sections": share::SECTIONS, "share_extents": share::EXTENTS}),
     );
+    if c.tier == Tier::Thorough {
+        c.extra_cov.insert(
+            "thorough_axes".into(),
+            json!({"seed_header_numbers": 8, "seed_records": [1, 2, 3, 5], "seed_keys": [0, 1, 2, 3, 8], "seed_max_subset": 3,
+                   "share_header_numbers": 8, "share_records": [2, 3, 5], "share_keys": [1, 2, 3, 8], "share_section_choices": 21, "share_extents": 3,
+                   "m2many_counts": [17, 300, 65537], "m2many_sites": 28, "m2many_huge_sites": 16,
+                   "m2chain_triples": 125, "m2chain_entry_points": 2, "m2chain_source_states": 2, "m2chain_max_deviations": 1,
+                   "seedchain_triples": 125, "seedchain_seed_kinds": chain::SEED_KINDS, "seedchain_section_choices": 11,
+                   "edit_seed_kinds": 3, "edit_header_numbers": 8, "edit_static_max_deviations": 2,
+                   "odd_kinds": odd::KINDS, "skin_levels": [0, 1, 3, 300, 65537], "anim_counts": [0, 1, 2, 3, 17], "anim_keys": [0, 1, 2, 3, 300]}),
+        );
+    }
     c.finish();
 }
